@@ -36,6 +36,8 @@ func main() {
 	step("boundary+random", boundaryAndRandom)
 	step("tdpos/xpoa", bcsPart)
 	step("collector", collectorPart)
+	step("collector-concurrent", concurrentDupPart)
+	step("proposal-path", proposalPathPart)
 
 	r.Exhaustive(false) // the n<=4 box is exhaustive (see counters exhaustive.*), n=5..10 is sampled
 	r.Extra("exhaustive_box", "all multisets of <= n+2 entries over {valid, non-member, wrong-id, damaged, mismatch} x members, n = 1..4")
@@ -63,5 +65,8 @@ func main() {
 	r.Assume("the stub ledger answers QueryBlock / QueryBlockByHeight / CreateSnapshot consistently; validator-set contract state is injected as snapshot content, not produced by contract calls")
 	fmt.Fprintln(os.Stderr, "c14: done")
 	sn.CleanupScratch()
+	r.Floor("collector.concurrent.trials", 100)
+	r.Floor("proposalpath.weak-certificates", 400)
+	r.Floor("proposalpath.root-moved", 20)
 	r.Finish()
 }
